@@ -1,0 +1,6 @@
+//go:build !verif
+
+package clock
+
+// verifNow is the disabled form of the verification time hook.
+func verifNow(*Clock) (int64, bool) { return 0, false }
